@@ -349,7 +349,13 @@ func StructTypeField(tpe ast.BaseTerm, field ast.Constant) (ast.BaseTerm, error)
 				return arg.(ast.ApplyFn).Args[1], nil
 			}
 			i++
+			if i >= len(elems) {
+				break // malformed struct type: a field name without a type.
+			}
 			return elems[i], nil
+		}
+		if !IsOptional(arg) {
+			i++ // skip the type of this field, it is not a field name.
 		}
 	}
 	return nil, fmt.Errorf("no field %v in %v", field, tpe)
